@@ -45,6 +45,12 @@ impl SwiftField for Field64 {
                 message: "Field 64 must be at least 10 characters long".to_string(),
             });
         }
+        // the components are cut out by byte position: only ASCII content can be sliced safely
+        if !input.is_ascii() {
+            return Err(ParseError::InvalidFormat {
+                message: "Field 64 must contain only ASCII characters".to_string(),
+            });
+        }
 
         // Parse debit/credit mark (1 character)
         let debit_credit_mark = parse_exact_length(&input[0..1], 1, "Field 64 debit/credit mark")?;
